@@ -554,6 +554,157 @@ Definition c18_conf_base (case obs : sx) : verdict :=
   | _ => BadCase
   end.
 
+(* ------------------------------------------------------------------------------------------ *)
+(* Glue for more than 12 selectors and for instance histories (which = 6, 7, 8)                *)
+(* ------------------------------------------------------------------------------------------ *)
+(* Above 12 paths Go's sort.Slice is pdqsort: deterministic but not stable, so the order of equally long
+   paths in the result of ParseNestedFields is not the order [sort_len] gives.  The sub-models below take
+   that order from the observation (what cfg.ParseNestedFields returned on the case's selectors) and
+   validate it: it has to be the model's path set, every path once, in non-decreasing length; up to 12
+   selectors it has to be the model's list itself (insertion sort). *)
+Fixpoint len_sorted (ps : list path) : bool :=
+  match ps with
+  | p :: r => match r with
+              | q :: _ => (length p <=? length q)%nat && len_sorted r
+              | [] => true
+              end
+  | [] => true
+  end.
+Definition path_mem (p : path) (ps : list path) : bool := existsb (path_eqb p) ps.
+Fixpoint paths_eqb (a b : list path) : bool :=
+  match a, b with
+  | [], [] => true
+  | x :: a', y :: b' => path_eqb x y && paths_eqb a' b'
+  | _, _ => false
+  end.
+Definition valid_order (nsel : nat) (model obs : list path) : bool :=
+  if (nsel <=? 12)%nat then paths_eqb model obs
+  else Nat.eqb (length model) (length obs) && len_sorted obs
+       && forallb (fun p => path_mem p obs) model && forallb (fun p => path_mem p model) obs.
+
+(* which = 7: ParseNestedFields with any number of selectors.  case = (#selector ...)
+   obs = (0 ((#seg ...) ...)) | (1 e) | (2) *)
+Definition c18_nested_many (case obs : sx) : verdict :=
+  match as_list as_B case with
+  | Some sels =>
+      match parse_nested sels with
+      | Ok psm =>
+          match obs with
+          | SL [SZ 0; opaths] =>
+              match as_list (as_list as_B) opaths with
+              | Some ops => if valid_order (length sels) psm ops then Agree
+                            else Differ (SL [SZ 0; sx_of_paths psm])
+              | None => BadCase
+              end
+          | _ => Differ (SL [SZ 0; sx_of_paths psm])
+          end
+      | r => exact_verdict (sx_of_res sx_of_paths r) obs
+      end
+  | None => BadCase
+  end.
+
+(* severity of the classification tags: identical < order only < array index < content < panic *)
+Definition sev (t : Z) : Z :=
+  if t =? 0 then 0 else if t =? 1 then 1 else if t =? 3 then 2 else if t =? 2 then 3 else 4.
+Definition worse (a b : Z) : Z := if sev a <? sev b then b else a.
+
+Inductive ev_res := EvBad | EvAgree | EvViol (tag : Z) (spec : json) | EvDiff (m : sx).
+
+(* one Do of a history, judged exactly like c18_run judges its single event; ps = the plugin's paths in
+   the validated order *)
+Definition c18_one (keep : bool) (specps ps : list path) (o : json) (obs : sx) : ev_res * Z :=
+  let spec := if keep then project specps o else subtract specps o in
+  let hit := if keep then false else negb (arr_safe ps o) in
+  match (if keep then keep_do ps o else Ok (remove_do ps o)) with
+  | Ok m =>
+      let msx := SL [SZ (c18_tag m spec hit); sx_of_json m] in
+      match obs with
+      | SL [SZ gtag; after] =>
+          match json_of_sx after with
+          | Some a =>
+              let ctag := c18_tag a spec hit in
+              if negb (ctag =? gtag) then (EvDiff msx, ctag)
+              else if json_eqb a m then (if ctag =? 0 then (EvAgree, 0) else (EvViol ctag spec, ctag))
+              else if ctag =? 2 then (EvViol 2 spec, 2)
+              else (EvDiff msx, ctag)
+          | None => (EvBad, 0)
+          end
+      | _ => (EvBad, 0)
+      end
+  | _ => (EvBad, 0)
+  end.
+
+Definition is_bad (r : ev_res * Z) : bool := match fst r with EvBad => true | _ => false end.
+Fixpoint first_diff (rs : list (ev_res * Z)) : option sx :=
+  match rs with
+  | [] => None
+  | (EvDiff m, _) :: _ => Some m
+  | _ :: r => first_diff r
+  end.
+(* the first violation of the worst kind present *)
+Fixpoint first_viol (want : Z) (rs : list (ev_res * Z)) : option sx :=
+  match rs with
+  | [] => None
+  | (EvViol t spec, _) :: r => if t =? want then Some (SL [SZ t; sx_of_json spec]) else first_viol want r
+  | _ :: r => first_viol want r
+  end.
+
+(* which = 6 remove_fields, 8 keep_fields: ONE plugin instance, the events one after the other.
+   case = ((#selector ...) (event ...))
+   obs  = (overall ((tag event-after) ...) ((#seg ...) ...)) | (9 #panic)
+          overall = the worst tag; the last item = what cfg.ParseNestedFields returned (see valid_order).
+   A path list that is not a valid order of the model's is a difference, unless some event's content is
+   wrong as well (then that violation is reported).
+   The model has no state between two Do (the per-depth buffers are empty after every Do: last
+   conjunct of c18_keep_spec_partial), so each event is judged on its own.  A content violation wins over a
+   model/code difference, which wins over the two known kinds (order only, array index): a difference
+   in one event is never hidden behind a known finding in another. *)
+Definition c18_seq (keep : bool) (case obs : sx) : verdict :=
+  match case with
+  | SL [sels; evs] =>
+      match as_list as_B sels, as_list json_of_sx evs with
+      | Some sels, Some os =>
+          if negb (forallb ouniq_b os) || existsb has_dotdot sels then BadCase else
+          match parse_nested sels with
+          | Ok psm =>
+              match obs with
+              | SL [SZ 9; SB _] => Violates (SL [SZ 9])
+              | SL [SZ overall; SL robs; opaths] =>
+                  match as_list (as_list as_B) opaths with
+                  | Some ops =>
+                      let ord_ok := valid_order (length sels) psm ops in
+                      if negb (Nat.eqb (length os) (length robs)) then BadCase
+                      else
+                        let specps := map split_unesc sels in
+                        let use := if ord_ok then ops else psm in
+                        let rs := map (fun ob => c18_one keep specps use (fst ob) (snd ob)) (combine os robs) in
+                        let w := fold_left (fun a r => worse a (snd r)) rs 0 in
+                        if existsb is_bad rs then BadCase
+                        else match first_viol 2 rs with
+                             | Some v => Violates v
+                             | None =>
+                                 if negb ord_ok then Differ (SL [SZ 7; sx_of_paths psm]) else
+                                 match first_diff rs with
+                                 | Some m => Differ m
+                                 | None =>
+                                     if negb (w =? overall) then Differ (SL [SZ 6; SZ w])
+                                     else match first_viol w rs with
+                                          | Some v => Violates v
+                                          | None => Agree
+                                          end
+                                 end
+                             end
+                  | None => BadCase
+                  end
+              | _ => BadCase
+              end
+          | _ => BadCase
+          end
+      | _, _ => BadCase
+      end
+  | _ => BadCase
+  end.
+
 Definition c18_entry (which : Z) (case obs : sx) : verdict :=
   match which with
   | 0 => c18_run false case obs
@@ -561,5 +712,8 @@ Definition c18_entry (which : Z) (case obs : sx) : verdict :=
   | 2 => c18_nested case obs
   | 3 => c18_selector case obs
   | 4 => c18_conf case obs
+  | 6 => c18_seq false case obs
+  | 7 => c18_nested_many case obs
+  | 8 => c18_seq true case obs
   | _ => c18_conf_base case obs
   end.
